@@ -205,3 +205,224 @@ def eof_fallback(report, rid, db, cg):
                          fi.qualname, 'the EOF arm must close immediately '
                          'and then reconnect with the default version '
                          '(found %s)' % [(k, i) for k, i, _ in order])
+
+
+# ---------------------------------------------------------------------------
+# reactor arms, name agreement, field completeness (C09, C10, C11)
+def reactor_arms(fi):
+    """{packet_name literal: (test expr, body statements)} of the if/elif
+    chain on `packet.packet_name == "<name>"` in a react method."""
+    pk = fi.params[1]
+    arms = {}
+
+    def visit(stmts):
+        for st in stmts:
+            if isinstance(st, ast.If):
+                t = st.test
+                name = None
+                if isinstance(t, ast.Compare) and len(t.ops) == 1 and \
+                        isinstance(t.ops[0], ast.Eq):
+                    l, r = t.left, t.comparators[0]
+                    if ast.unparse(l) == '%s.packet_name' % pk and \
+                            isinstance(r, ast.Constant):
+                        name = r.value
+                    elif ast.unparse(r) == '%s.packet_name' % pk and \
+                            isinstance(l, ast.Constant):
+                        name = l.value
+                if name is not None:
+                    arms[name] = (st, st.body)
+                    visit(st.orelse)
+                else:
+                    visit(st.body)
+                    visit(st.orelse)
+    visit(fi.body)
+    return arms
+
+
+def packet_attr_reads(stmts, pk):
+    out = set()
+    for st in stmts:
+        for n in ast.walk(st):
+            if isinstance(n, ast.Attribute) and isinstance(n.value, ast.Name) \
+                    and n.value.id == pk and isinstance(n.ctx, ast.Load):
+                out.add(n.attr)
+    return out
+
+
+def name_agreement(report, rid, db, P, reactor_ci, state):
+    """Every packet_name a reactor compares with is the packet_name of a
+    class in its clientbound table, and every packet attribute the arm reads
+    is a field of that class wherever it is registered."""
+    from .protocol import Raises
+    from .fold import ClassVal, FoldRaise
+    fi = db.own_method(reactor_ci, 'react')
+    if fi is None:
+        raise AnalysisError('%s.react vanished' % reactor_ci.qualname)
+    arms = reactor_arms(fi)
+    pk = fi.params[1]
+    names = {}
+    for v in P.supported:
+        t = P.table('clientbound', state, v)
+        if isinstance(t, Raises):
+            continue
+        for cv in t:
+            try:
+                nm = P.F.getattr(cv, 'packet_name', cv.ci.node, cv.ci.module)
+            except FoldRaise:
+                continue
+            names.setdefault(nm, {}).setdefault(cv, []).append(v)
+    for nm, (st, body) in sorted(arms.items()):
+        if nm not in names:
+            report.violation(rid, 'arm-name:%s:%s' % (reactor_ci.name, nm),
+                             fi.path, st.test, fi.qualname,
+                             'the arm for %r can never fire: no class in '
+                             'the clientbound %s table has that packet_name'
+                             % (nm, state))
+            continue
+        reads = packet_attr_reads(body, pk) - {'packet_name'}
+        for cv, vs in names[nm].items():
+            missing = {}
+            for v in vs:
+                have = set()
+                d = P.definition(cv, v)
+                if isinstance(d, list):
+                    for e in d:
+                        have |= set(e)
+                rd, _ = P.custom_codec(cv.ci)
+                if rd is not None:
+                    for x in ast.walk(rd.node):
+                        if isinstance(x, ast.Attribute) and isinstance(
+                                x.ctx, ast.Store):
+                            have.add(x.attr)
+                for a in reads:
+                    if a not in have and db.find_attr(cv.ci, a) is None:
+                        missing.setdefault(a, []).append(v)
+            if missing:
+                for a, mv in missing.items():
+                    report.violation(
+                        rid, 'arm-field:%s:%s:%s' % (reactor_ci.name, nm, a),
+                        fi.path, st.test, fi.qualname,
+                        'the %r arm reads packet.%s, which %s does not '
+                        'carry in protocol(s) %s...' % (
+                            nm, a, cv.ci.qualname, mv[:3]))
+            else:
+                report.ok(rid, '%s arm %r: %s are fields of %s in %d '
+                          'versions' % (reactor_ci.name, nm, sorted(reads),
+                                        cv.ci.qualname, len(vs)))
+    return arms
+
+
+def constructed_packets(db, cg, P, fi):
+    """Locals of fi bound to `SomePacket(...)` -> (ClassInfo, kwargs set,
+    Assign node)."""
+    out = {}
+    for n in cg.shallow(fi):
+        if isinstance(n, ast.Assign) and len(n.targets) == 1 and \
+                isinstance(n.targets[0], ast.Name) and \
+                isinstance(n.value, ast.Call):
+            ent = db.resolve_dotted(fi.module, n.value.func)
+            ent = db.deref(ent) if isinstance(ent, tuple) else ent
+            if hasattr(ent, 'attrs') and db.is_subclass(ent, P.packet_ci):
+                out[n.targets[0].id] = (ent, set(
+                    k.arg for k in n.value.keywords if k.arg), n)
+    return out
+
+
+def field_completeness(report, rid, db, cg, P, M, fi):
+    """Every packet object constructed in fi and handed to write_packet has
+    all fields of its class's definition assigned, in every version in
+    which that write is reachable."""
+    from .cfg import cfg_of
+    from .fold import ClassVal, FoldRaise, Env
+    from . import boolfn
+    g = cfg_of(fi)
+    built = constructed_packets(db, cg, P, fi)
+    n = 0
+    for node in g.reachable_nodes():
+        if node.ast is None:
+            continue
+        for c in node.calls():
+            if not (isinstance(c.func, ast.Attribute) and
+                    c.func.attr == 'write_packet' and c.args):
+                continue
+            a = c.args[0]
+            ci = None
+            assigned = set()
+            if isinstance(a, ast.Name) and a.id in built:
+                ci, kw, asn = built[a.id]
+                assigned |= kw
+                stores = {}
+                for x in cg.shallow(fi):
+                    if isinstance(x, ast.Attribute) and isinstance(
+                            x.ctx, ast.Store) and isinstance(
+                                x.value, ast.Name) and x.value.id == a.id:
+                        stores.setdefault(x.attr, []).extend(
+                            M.cfg_nodes_of(fi, x))
+                ctor = M.cfg_nodes_of(fi, asn)
+                for attr, sn in stores.items():
+                    # set on every path from the construction to the write
+                    if ctor and all(g.exists_path(
+                            c0, lambda q: q is node,
+                            avoid=lambda q: q in sn) is None for c0 in ctor):
+                        assigned.add(attr)
+            elif isinstance(a, ast.Call):
+                ent = db.resolve_dotted(fi.module, a.func)
+                ent = db.deref(ent) if isinstance(ent, tuple) else ent
+                if hasattr(ent, 'attrs') and db.is_subclass(ent,
+                                                            P.packet_ci):
+                    ci = ent
+                    assigned |= set(k.arg for k in a.keywords if k.arg)
+            if ci is None:
+                continue
+            n += 1
+            cv = ClassVal(ci)
+            conds = [(e, t) for e, t in boolfn.path_conditions(g, node)
+                     if isinstance(e, ast.Call) and isinstance(
+                         e.func, ast.Attribute)
+                     and e.func.attr.startswith('protocol_')]
+            missing = {}
+            nv = 0
+            for v in P.supported:
+                ok = True
+                for e, t in conds:
+                    args = [P.F.eval(x, Env(fi.module)) for x in e.args]
+                    fv = P.F.getattr(P.ctx(v), e.func.attr, e, fi.module)
+                    if bool(P.F.call(fv, args, {}, e, Env(fi.module))) != t:
+                        ok = False
+                if not ok:
+                    continue
+                nv += 1
+                _, wr = P.custom_codec(ci)
+                need = set()
+                if wr is None:
+                    d = P.definition(cv, v)
+                    if isinstance(d, list):
+                        for e in d:
+                            need |= set(e)
+                else:
+                    for st in wr.body:
+                        if isinstance(st, ast.Expr):
+                            for x in ast.walk(st):
+                                if isinstance(x, ast.Attribute) and \
+                                        isinstance(x.value, ast.Name) and \
+                                        x.value.id == wr.params[0] and \
+                                        x.attr != 'context':
+                                    need.add(x.attr)
+                for f in need:
+                    if f in assigned or db.find_attr(ci, f) is not None:
+                        continue
+                    missing.setdefault(f, []).append(v)
+            if missing:
+                for f, vs in sorted(missing.items()):
+                    report.violation(
+                        rid, 'unset-field:%s:%s:%s' % (fi.qualname,
+                                                       ci.qualname, f),
+                        fi.path, c, fi.qualname,
+                        '%s is written without its field %r being set '
+                        '(needed in %d version(s), first %s): '
+                        'AttributeError at write time' % (
+                            ci.qualname, f, len(vs), P.vname(vs[0])))
+            else:
+                report.ok(rid, '%s: %s complete in %d version(s)' % (
+                    fi.qualname, ci.qualname, nv))
+    return n
